@@ -262,6 +262,12 @@ def value_facts(target: ast.AST, value: ast.expr, st: "State") -> set[Fact]:
         return {(False, f"{x} is None")}  # mutable: emptiness changes without an assignment (append/update)
     if isinstance(value, (ast.ListComp, ast.SetComp, ast.DictComp, ast.GeneratorExp, ast.JoinedStr, ast.Lambda)):
         return {(False, f"{x} is None")}
+    if isinstance(value, ast.Call):
+        f = value.func
+        nm = f.id if isinstance(f, ast.Name) else (f.attr if isinstance(f, ast.Attribute) else "")
+        if nm[:1].isupper():  # constructor call (PEP 8 class name): the result is an object, never None
+            return {(False, f"{x} is None")}
+        return set()
     if isinstance(value, ast.Name) and value.id != x:
         out = set()
         for pol, txt in st.must:
